@@ -138,6 +138,13 @@ def grid_case(ctx, idx, rng):
     ctx.case(('lanczos', 'n<=10', 'm>n' if m > n else ('m=n' if m == n else 'm<n'), spectrum, start, 'complex' if cplx else 'real'),
              sample={'n': n, 'm': m, 'spectrum': spectrum, 'start': start, 'A': A, 'v': v})
     check_lanczos(ctx, A, v, m)
+    if idx % 4 == 0:
+        # history: the SAME start-vector object changed in place, iteration run again (also with the same matrix object scaled in place)
+        v *= 2.0
+        v[0] = v[0] + 1.0
+        A *= 0.5
+        ctx.case(('lanczos', 'n<=10', 'after-inplace-edit', spectrum, start), sample={'n': n, 'm': m})
+        check_lanczos(ctx, A, v, m)
     # general (non-Hermitian) matrix for Arnoldi, same start class
     B = A + (rng.normal(size=(n, n)) + (1j * rng.normal(size=(n, n)) if cplx else 0)) * float(rng.choice([0, 0.5]))
     if start.startswith('invariant') or start == 'eigenvector':
